@@ -51,7 +51,7 @@ type runner struct {
 
 // width is the largest number of consumer calls in flight at once in an event trace; the model's
 // state set grows like 5^width (every interleaving of their statements), so wide traces are judged by
-// the monitors only.
+// the monitors only (width 5 costs the driver about 0.2 s, width 6 about 6 s).
 func width(events []string, callPrefixes ...string) int {
 	cur, max := 0, 0
 	for _, e := range events {
@@ -70,7 +70,7 @@ func width(events []string, callPrefixes ...string) int {
 	return max
 }
 
-const maxModelWidth = 4
+const maxModelWidth = 5
 
 func (r *runner) ask(line string) (string, bool) {
 	if r.drv == nil {
@@ -131,7 +131,7 @@ func (r *runner) doReady(sc RScenario) {
 		r.res.Hit("ready:ret-" + strings.TrimRight(v, "0123456789"))
 	}
 	if w := width(o.Events, "cg", "cgp", "cy"); w > maxModelWidth {
-		r.res.Hit("ready:model-skipped-width>4")
+		r.res.Hit("ready:model-skipped-width>5")
 	} else if ans, ok := r.ask("lts v=fixed ev=" + strings.Join(o.Events, ",")); ok {
 		r.res.Traces++
 		if !strings.HasPrefix(ans, "accept") {
@@ -230,7 +230,7 @@ func (r *runner) doTA(sc TScenario) {
 		r.res.Hit("ta:ends-with-pending-calls")
 	}
 	if w := width(o.Events, "cb", "ca", "cw"); w > maxModelWidth {
-		r.res.Hit("ta:model-skipped-width>4")
+		r.res.Hit("ta:model-skipped-width>5")
 	} else if ans, ok := r.ask("ta ev=" + strings.Join(o.Events, ",")); ok {
 		r.res.Traces++
 		if !strings.HasPrefix(ans, "accept") {
